@@ -117,6 +117,32 @@ def caseLines (store : String) (ps : Progs) (i0 : Option Bytes) (cap : Nat) (pro
         | [] => none))
   full ++ blocked
 
+/-- every point of every execution of the model at which some thread's next step is NOT enabled (it would have to wait
+for a lock): the valid prefix followed by that thread, as a `probe=1` line — the real store must block exactly there.
+Breadth-first over schedule prefixes, capped. (A store that hands two operations on one key different locks, or
+releases a lock early, lets such a step through.) -/
+partial def allProbes (store : String) (ps : Progs) (i0 : Option Bytes) (cap : Nat) : List String :=
+  let base := "c18 sched store=" ++ store ++ " init=" ++ (match i0 with | some b => showHex b | none => "none") ++ " progs=" ++ showProgs ps
+  let showSched (sc : List Nat) : String := if sc.isEmpty then "-" else ",".intercalate (sc.map toString)
+  let n := ps.length
+  -- (enabled threads, disabled-but-unfinished threads) after a valid prefix
+  let status (pre : List Nat) : Option (List Nat × List Nat) :=
+    if store == "mem" then
+      (run .fixed ps (init ps i0) pre).map (fun s =>
+        ((List.range n).filter (fun t => enabled .fixed ps s t), (List.range n).filter (fun t => (curOp ps s t).isSome && !enabled .fixed ps s t)))
+    else
+      (FsConc.run .fixed ps (FsConc.init ps i0) pre).map (fun s =>
+        ((List.range n).filter (fun t => FsConc.enabled .fixed ps s t), (List.range n).filter (fun t => (FsConc.curOp ps s t).isSome && !FsConc.enabled .fixed ps s t)))
+  let rec go (frontier : List (List Nat)) (acc : List String) (fuel : Nat) : List String :=
+    if fuel == 0 || frontier.isEmpty || acc.length ≥ cap then acc else
+    let (next, acc) := frontier.foldl (fun (st : List (List Nat) × List String) pre =>
+      match status pre with
+      | none => st
+      | some (en, dis) =>
+        (st.1 ++ en.map (fun t => pre ++ [t]), st.2 ++ dis.map (fun t => base ++ " sched=" ++ showSched (pre ++ [t]) ++ " probe=1"))) ([], acc)
+    go next acc (fuel - 1)
+  (go [[]] [] 12).take cap
+
 def genCases (tier : String) (seed : Nat) : List String :=
   let thorough := tier == "thorough"
   let inits : List (Option Bytes) := [none, some [7, 7, 7]]
@@ -128,7 +154,14 @@ def genCases (tier : String) (seed : Nat) : List String :=
       let (ps, r) := randProgs alpha nt maxOps (lcg (acc.2 + k))
       let i0 := if (r / 7) % 2 == 0 then none else some [7, 7, 7]
       (acc.1 ++ caseLines store ps i0 cap (k % 3 == 0), r)) ([], seed)).1
-  pairs opAlphabetMem "mem" ++ pairs opAlphabetFs "fs" ++
+  -- three threads on one key, one operation each: EVERY point at which the model makes a thread wait is probed
+  let triples (store : String) : List String :=
+    let progs : List Progs := if thorough then
+        [[[.erase], [.set [1, 2]], [.get]], [[.erase], [.set [1, 2]], [.size]], [[.set [3]], [.set [1, 2]], [.get]],
+         [[.erase], [.erase], [.set [1, 2]]], [[.get], [.erase], [.set [1, 2]]], [[.set [1, 2]], [.getRange 0 1], [.erase]]]
+      else [[[.erase], [.set [1, 2]], [.get]], [[.set [1, 2]], [.size], [.erase]]]
+    progs.flatMap (fun ps => inits.flatMap (fun i0 => allProbes store ps i0 (if thorough then 400 else 70)))
+  pairs opAlphabetMem "mem" ++ pairs opAlphabetFs "fs" ++ triples "fs" ++ triples "mem" ++
   sampled opAlphabetMem "mem" (if thorough then 150 else 25) 2 2 (if thorough then 400 else 60) (seed * 7919 + 1) ++
   sampled opAlphabetMem "mem" (if thorough then 60 else 10) 3 1 (if thorough then 400 else 60) (seed * 7919 + 2) ++
   sampled opAlphabetMem "mem" (if thorough then 40 else 4) 3 2 (if thorough then 300 else 40) (seed * 7919 + 3) ++
